@@ -834,6 +834,18 @@ func c01SideLinks(r *simkit.Run, w *World) {
 		seg = int64(tp.Range(1, n+1, "side.seg"))
 	}
 	quiet := tp.Chance(1, 3, "side.quietEnd")
+	// in a third of the segmented runs off-chain links may also sit on the
+	// last block of a full segment (the known finding, see below)
+	onBoundary := seg > 0 && tp.Chance(1, 3, "side.onBoundary")
+	// in a quarter of the longer chains the head also links, in a field that
+	// sorts before PreviousID, to the advertisement two places down: that
+	// block is reached before the block that names it as its predecessor.
+	// Blocks linked twice are visited twice (section 9), so these runs have
+	// no other off-chain links and are judged by coverage, not by sequence
+	cross := n >= 4 && seg != 1 && tp.Chance(1, 4, "side.cross")
+	if cross {
+		onBoundary = false
+	}
 	pub := w.NewPublisher(PubOpts{Name: "P1", NAds: 0, Hosts: []string{"10.0.0.1:3104"}})
 	// built oldest first; position h counts from the head (h = 0)
 	chain := make([]cid.Cid, n)
@@ -843,7 +855,7 @@ func c01SideLinks(r *simkit.Run, w *World) {
 		h := n - 1 - i
 		boundary := seg > 0 && int64(h)%seg == seg-1
 		var sd cid.Cid
-		if !boundary && tp.Chance(1, 2, "side.has") {
+		if (!boundary || onBoundary) && !cross && tp.Chance(1, 2, "side.has") {
 			sd = storeTreeNode(pub, fmt.Sprintf("side%d", h), nil)
 			w.Names.Set(sd.String(), fmt.Sprintf("P1.side%d", h))
 		}
@@ -852,6 +864,9 @@ func c01SideLinks(r *simkit.Run, w *World) {
 			prev = chain[h+1]
 		}
 		nd := must(qp.BuildMap(basicnode.Prototype.Map, 3, func(ma datamodel.MapAssembler) {
+			if cross && h == 0 {
+				qp.MapEntry(ma, "Cross", qp.Link(cidlink.Link{Cid: chain[2]}))
+			}
 			qp.MapEntry(ma, "N", qp.Int(int64(h)))
 			if prev.Defined() {
 				qp.MapEntry(ma, "PreviousID", qp.Link(cidlink.Link{Cid: prev}))
@@ -883,7 +898,9 @@ func c01SideLinks(r *simkit.Run, w *World) {
 	}
 	// reference: per segment the chain blocks, then the off-chain blocks of
 	// the segment, deepest first
-	var want []string
+	// (lossy: the same without the off-chain blocks of blocks that end a
+	// full segment - what the known finding reports)
+	var want, lossy []string
 	k := n
 	if seg > 0 {
 		k = int(seg)
@@ -892,10 +909,14 @@ func c01SideLinks(r *simkit.Run, w *World) {
 		e := min(s+k, n) - 1
 		for h := s; h <= e; h++ {
 			want = append(want, w.CidName(chain[h]))
+			lossy = append(lossy, w.CidName(chain[h]))
 		}
 		for h := e; h >= s; h-- {
 			if side[h].Defined() {
 				want = append(want, w.CidName(side[h]))
+				if !(seg > 0 && int64(h)%seg == seg-1) {
+					lossy = append(lossy, w.CidName(side[h]))
+				}
 			}
 		}
 	}
@@ -912,11 +933,38 @@ func c01SideLinks(r *simkit.Run, w *World) {
 		r.Violate("c01.liveness", "sync with the non-strict selector did not return (%s)", out)
 		return
 	}
+	if cross && err == nil && head == chain[0] {
+		seen := map[string]bool{}
+		for _, g := range got {
+			seen[g] = true
+		}
+		for h := 0; h < n; h++ {
+			if !seen[w.CidName(chain[h])] || !sub.Store.Has(chain[h]) {
+				r.Violate("c01.hooks", "chain whose head also links to the block two places down, non-strict selector, segment size %d: block %s of the chain was never reported (hook saw %v)", seg, w.CidName(chain[h]), got)
+				return
+			}
+		}
+		if sub.Latest(pub) != chain[0] {
+			r.Violate("c01.latest", "latest-sync is %s, want %s", w.CidName(sub.Latest(pub)), w.CidName(chain[0]))
+		}
+		r.Probe("chain-with-a-cross-link")
+		r.MarkEnd()
+		w.Shutdown(sub, lst)
+		return
+	}
 	switch {
 	case err != nil:
 		r.Violate("c01.error", "fault-free SyncAdChain with the non-strict selector failed: %v", err)
 	case head != chain[0]:
 		r.Violate("c01.head", "returned head %s, want %s", w.CidName(head), w.CidName(chain[0]))
+	case !eqStrs(got, want) && eqStrs(got, lossy):
+		// known finding: with the non-strict selector the links of the block
+		// that ends a full segment, other than the one the hook names, are
+		// never followed - the blocks behind them are not synced, and the
+		// blocks reported depend on the segment size
+		r.Violate("c01.hooks", "chain with off-chain links, non-strict selector, segment size %d: hook saw %v, reference says %v [off-chain link on the last block of a full segment: not followed]", seg, got, want)
+		r.Probe("known-finding-segment-boundary")
+		return
 	case !eqStrs(got, want):
 		r.Violate("c01.hooks", "chain with off-chain links, non-strict selector, segment size %d: hook saw %v, reference says %v", seg, got, want)
 	case sub.Latest(pub) != chain[0]:
